@@ -100,7 +100,9 @@ LITS = [
  ("lit", "ref [link text][r1] here\n\n[r1]: http://r.s/ \"Ref T\"", '<p>ref <a href="http://r.s/" title="Ref T">link text</a> here</p>', False),
  ("lit", "![figure cap](f.png)", '<figure>\n<img src="f.png" alt="figure cap" />\n<figcaption>figure cap</figcaption>\n</figure>', True),
 ]
-LEAF = [("p", i) for i in INL] + [("h", 1, INL[0], "atx"), ("h", 2, INL[1], "atxc"), ("h", 1, INL[0], "setext"), ("h", 2, INL[2], "setext"), ("h", 6, INL[3], "atx"), ("hr",),
+# heading texts whose first character is a legal label character other than a letter, or is dropped from the label
+HTXT = [[("t", ":colon first")], [("t", "-v option x")], [("t", ".NET notes")], [("t", "9 lives")], [("t", "(paren) first")], [("t", "Mixed.Case-And_More 2")], [("t", "_under first")]]
+LEAF = [("p", i) for i in INL] + [("h", (1, 3, 2, 2, 1, 1, 4)[n], t, ("atx", "atxc", "setext")[n % 3]) for n, t in enumerate(HTXT)] + [("h", 1, INL[0], "atx"), ("h", 2, INL[1], "atxc"), ("h", 1, INL[0], "setext"), ("h", 2, INL[2], "setext"), ("h", 6, INL[3], "atx"), ("hr",),
                                   ("fence", "code <&>\nl2", "perl"), ("fence", "x", None), ("icode", "ind <&>\n  more"), ("fence", "esc \\< \\> \\\" \\& \\*", None), ("icode", "esc \\< \\> \\\" \\&")] + LITS
 NP = len(INL)
 def containers():
